@@ -1186,3 +1186,54 @@ def _fold_block(stmts: List[ast.stmt]) -> List[ast.stmt]:
                 h.body = _fold_block(h.body) or [ast.Pass()]
         out.append(_FoldExpr().visit(s))
     return out or [ast.Pass()]
+
+
+# ---------------------------------------------------------------- line numbers after a transformation
+def renumber(tree: ast.Module):
+    """After statements were moved or expanded, line numbers no longer follow
+    the document order the rules rely on (`a.lineno < b.lineno`).  Every
+    statement gets a fresh consecutive number in document order (all nodes of a
+    simple statement share it); the line to show in reports is kept in
+    `_orig_lineno`."""
+    counter = [0]
+
+    def stamp_expr(e: ast.AST, ln: int):
+        for n in ast.walk(e):
+            if hasattr(n, "lineno") or isinstance(n, (ast.expr, ast.arg, ast.keyword, ast.alias, ast.ExceptHandler)):
+                if not hasattr(n, "_orig_lineno"):
+                    n._orig_lineno = getattr(n, "lineno", ln)  # type: ignore[attr-defined]
+                n.lineno = ln
+                n.end_lineno = ln
+
+    def visit_block(stmts):
+        for s in stmts:
+            counter[0] += 1
+            ln = counter[0]
+            if not hasattr(s, "_orig_lineno"):
+                s._orig_lineno = getattr(s, "lineno", ln)  # type: ignore[attr-defined]
+            s.lineno = ln
+            s.end_lineno = ln
+            for fld, val in ast.iter_fields(s):
+                if fld in ("body", "orelse", "finalbody") and isinstance(val, list) and val and isinstance(val[0], ast.stmt):
+                    continue
+                if fld == "handlers":
+                    continue
+                for x in (val if isinstance(val, list) else [val]):
+                    if isinstance(x, ast.AST):
+                        stamp_expr(x, ln)
+            for fld in ("body", "orelse"):
+                b = getattr(s, fld, None)
+                if isinstance(b, list) and b and isinstance(b[0], ast.stmt):
+                    visit_block(b)
+            if isinstance(s, ast.Try):
+                for h in s.handlers:
+                    counter[0] += 1
+                    h._orig_lineno = getattr(h, "lineno", counter[0])  # type: ignore[attr-defined]
+                    h.lineno = counter[0]
+                    if h.type is not None:
+                        stamp_expr(h.type, counter[0])
+                    visit_block(h.body)
+                visit_block(s.finalbody)
+            s.end_lineno = counter[0]
+
+    visit_block(tree.body)
